@@ -344,6 +344,47 @@ def r5_one_key_per_folder(ctx):
         r.anchor_missing("Vault::encrypt/decrypt calls in AccessPoint")
 
 
+SWALLOW = re.compile(r"core::result::Result::<.*>::(ok|unwrap_or|unwrap_or_else|unwrap_or_default|or|or_else|is_ok|is_err)$")
+
+
+def r6_decrypt_errors_propagate(ctx):
+    """An authentication / truncation / stream error anywhere on a decryption
+    path must end the call in Err: no failure branch of a fallible call inside a
+    decrypt function may reach an Ok return (e.g. `while let Ok(n) = read()`)."""
+    ws = ctx.ws
+    r = ctx.rule("C10-R6", "no error on a decryption path is swallowed: the failure branch of every fallible call in a decrypt function ends in Err",
+                 floor=15, kind="K2 error discipline (exit reachability from Err edges)")
+    fns = [fn for root, fn in sorted(ws.fns.items())
+           if "decrypt" in idioms.last_seg(root) and fn.crate not in idioms.TEST_CRATES]
+    if len(fns) < 10:
+        r.anchor_missing("decrypt functions (found %d, 14 on the pinned tree)" % len(fns))
+    for fn in fns:
+        for b in fn.bodies:
+            live = cfg.live_blocks(b)
+            oks = {e.block for e in cfg.exits(b) if e.kind == "ok"}
+            n = 0
+            for i, t in idioms.real_calls(b, live):
+                full = t.get("callee_full") or t.get("callee") or ""
+                k = "%s|%s#%d" % (fn.root, cname(t), n)
+                if SWALLOW.search(full) or SWALLOW.search(t.get("callee") or ""):
+                    n += 1
+                    r.violation(k, cfg.loc(b, i), "a Result is converted with `%s` inside a decrypt function: a decryption failure is turned into a value" % cname(t), work=1)
+                    continue
+                rb = idioms.result_branches(b, i)
+                if rb is None:
+                    continue
+                n += 1
+                _okb, errb = rb
+                bad = cfg.reach(b, errb) & oks
+                if bad:
+                    p_ = cfg.find_path(b, errb, sorted(bad))
+                    r.violation(k, cfg.loc(b, i),
+                                "the failure branch of `%s` reaches an Ok return: a decryption/authentication error yields data instead of an error" % cname(t),
+                                work=len(live), witness=cfg.path_lines(b, p_))
+                else:
+                    r.ok(k, cfg.loc(b, i), "failure of `%s` ends in Err on every path" % cname(t), work=len(live))
+
+
 def run(ctx):
     ctx.explanation = (
         "Sourcing rules for nonces, keys and plaintext results: (R1) every caller of the symmetric encrypt functions "
@@ -352,7 +393,7 @@ def run(ctx):
         "returns nothing else, with the same cipher type and the key parameter in both directions, and the Cipher enum "
         "dispatches each variant to one module both ways; (R3) the derived key depends on password, salt and seed and "
         "new keys get a random salt; (R4) the access point keeps a key only if it decrypted the vault meta; (R5) all "
-        "access-point encryption uses the stored key. AEAD tamper rejection and nonce collision probability are properties "
+        "access-point encryption uses the stored key; (R6) in every decrypt function the failure branch of every fallible call ends in Err (no swallowed authentication or stream error). AEAD tamper rejection and nonce collision probability are properties "
         "of the cipher crates and not decided.")
     ctx.trust("aes-gcm / chacha20poly1305 AEAD implementations authenticate", "rand OsRng", "argon2 / balloon-hash")
     r1_nonces_fresh(ctx)
@@ -360,3 +401,4 @@ def run(ctx):
     r3_key_derivation(ctx)
     r4_unlock_is_verification(ctx)
     r5_one_key_per_folder(ctx)
+    r6_decrypt_errors_propagate(ctx)
